@@ -50,7 +50,8 @@ def tap_expr(t):
     mi = t["model_input"]
     if t["kind"] == "resolve":
         return f"sreport (resolve {coq(mi['graph'])} {coq(mi['store'])})"
-    return f"supdates (get_store_updates {coq(mi['graph'])} {coq(mi['store'])} {mode_fn(t['modes'])})"
+    return (f"(supdates (get_store_updates {coq(mi['graph'])} {coq(mi['store'])} {mode_fn(t['modes'])}) ++ "
+            f"sstore_ok {coq(mi['graph'])} {coq(mi['store'])})%string")
 
 
 def tap_agrees(t, m):
@@ -60,6 +61,8 @@ def tap_agrees(t, m):
         return False, "implementation panicked: " + t["obs"][:200]
     if "(fuel)" in m:
         return False, "model ran out of fuel"
+    if "(store_bad)" in m:
+        return False, "a store the implementation loaded does not satisfy the model's store_ok precondition"
     if t["kind"] == "resolve":
         a, b = O.Report(t["obs"]), O.Report(m)
         pa = (a.kind, sorted(a.failures().items()), a.reqs, a.success_lists())
